@@ -49,6 +49,8 @@ import (
 	"github.com/tetratelabs/wazero/verifharness/hx"
 )
 
+var enumN *int
+
 var (
 	rep    *hx.Report
 	mutate = flag.Int("mutate", 0, "self-test: perturb the REAL output before comparing (1 swap Isub operands, 2 drop the last block parameter of a header, 3 Brz <-> Brnz, 4 drop the last argument of a branch, 5 change an Iconst)")
@@ -500,6 +502,7 @@ type job struct {
 	hand    bool
 	index   int
 	verbose bool
+	enum    bool
 }
 
 type worker struct {
@@ -555,6 +558,10 @@ func (w *worker) check(j *job) {
 
 	m, err := decodeValidate(f)
 	if err != nil {
+		if j.enum {
+			rep.Count("enum:rejected-by-validator")
+			return
+		}
 		rep.Count("gen:rejected-by-validator")
 		if j.hand || j.verbose {
 			fmt.Fprintf(os.Stderr, "rejected by the real validator: %s\n  %v\n", text, err)
@@ -567,7 +574,11 @@ func (w *worker) check(j *job) {
 		return
 	}
 	rep.Case(text)
-	countFn(f)
+	if j.enum {
+		rep.Count("enum:functions")
+	} else {
+		countFn(f)
+	}
 	bparams := f.hasBlockParams()
 	if j.verbose {
 		fmt.Println("function:", text)
@@ -953,12 +964,13 @@ func finish(code int) {
 func main() {
 	n := flag.Int("n", 0, "number of generated functions (0 = tier default)")
 	dump := flag.Bool("dump", false, "print every generated function")
+	enumN = flag.Int("enum", -1, "exhaustive enumeration of small functions up to this many instructions (-1 = tier default: 4 / 6; 0 = none)")
 	nworkers := flag.Int("workers", 0, "worker goroutines, one oracle process each (0 = min(8, GOMAXPROCS))")
 	flag.Parse()
 	if err := checkOpcodeTable(); err != nil {
 		hx.Fatal("%v", err)
 	}
-	rep = hx.NewReport("C01", "front-end tie on structured control flow: generated well-typed functions (0..3 params, 0..2 results, 0..5 locals of i32/i64; nested block / loop / if with or without else, block types with 0..2 results and - in a quarter of the functions - parameters taken from the stack; br and br_if to every enclosing label incl. the function's and loop headers, backward branches bounded by a reserved counter local so that every call terminates; return, unreachable, dead code after them incl. nested blocks; the straight-line integer instructions of hfront in between, locals written in branches and loop bodies and read after the joins) plus a hand-written corpus; each is encoded as a real module, accepted by the REAL decoder+validator, lowered by the REAL frontend.Compiler.LowerToSSA; Format() == `c01frontcf lower` line by line (block ids, parameters, predecessor lists, value ids, branch arguments); REAL alias table == model's; wt / wf accept; Lean SSA semantics of the REAL output (before and after the REAL RunPasses) == reference semantics == model's lowering (plain / optimised) on 3 argument vectors; functions with block parameters: the reference semantics is run on the desugared function (parameters saved in fresh locals); distinct = distinct function texts")
+	rep = hx.NewReport("C01", "front-end tie on structured control flow: generated well-typed functions (0..3 params, 0..2 results, 0..5 locals of i32/i64; nested block / loop / if with or without else, block types with 0..2 results and - in a quarter of the functions - parameters taken from the stack; br and br_if to every enclosing label incl. the function's and loop headers, backward branches bounded by a reserved counter local so that every call terminates; return, unreachable, dead code after them incl. nested blocks; the straight-line integer instructions of hfront in between, locals written in branches and loop bodies and read after the joins) plus a hand-written corpus, plus the EXHAUSTIVE enumeration of all valid functions of at most 4 (quick) / 6 (thorough) instructions over a 21-token alphabet with one i32 parameter, local and result (enum.go); each is encoded as a real module, accepted by the REAL decoder+validator, lowered by the REAL frontend.Compiler.LowerToSSA; Format() == `c01frontcf lower` line by line (block ids, parameters, predecessor lists, value ids, branch arguments); REAL alias table == model's; wt / wf accept; Lean SSA semantics of the REAL output (before and after the REAL RunPasses) == reference semantics == model's lowering (plain / optimised) on 3 argument vectors; functions with block parameters: the reference semantics is run on the desugared function (parameters saved in fresh locals); distinct = distinct function texts")
 	if *mutate != 0 {
 		rep.Note("SELF-TEST: -mutate %d perturbs the real output; violations are expected", *mutate)
 	}
@@ -999,6 +1011,26 @@ func main() {
 		rep.Count("corpus")
 		jobs <- &job{f: f, args: handArgs(f, func() []uint64 { return genArgs(r, f.params) }), hand: true, index: idx}
 		idx++
+	}
+	// exhaustive small scope: every valid function of at most enumN instructions over a small alphabet (enum.go)
+	en := *enumN
+	if en < 0 {
+		en = 4
+		if hx.Thorough() {
+			en = 6
+		}
+	}
+	if en > 0 {
+		enumFns(en, func(t string) {
+			f, err := parseFnText(t)
+			if err != nil {
+				hx.Fatal("enumeration %q: %v", t, err)
+			}
+			rep.Count("enum:candidates")
+			jobs <- &job{f: f, args: [][]uint64{{0}, {1}, {3}}, index: idx, enum: true}
+			idx++
+		})
+		rep.Note("exhaustive enumeration of the functions with at most %d instructions over the alphabet of enum.go", en)
 	}
 	total := 3000
 	if hx.Thorough() {
